@@ -9,6 +9,7 @@
    have to be re-proved with the bound restricted to an invariant closed under the reads and seeks of
    the run (its content / buf_fill lemmas use the bound at every read).  Missing, said in the report.
    The trusted link stays ArchiveFileBlock::from = Blocks.parse_block (SrcTie3RepairLoop.block_from). *)
+From MLA Require Import Limit.
 From MLA Require Import Base Stream Blocks Writer Repair RepairSpec RepairPure
   RepairProofs2 RepairProofs5 RepairProofs6 SrcTie2 SrcTie3Repair SrcTie3RepairLoop.
 From MLAGen Require Src2 Src3r.
@@ -23,6 +24,7 @@ Proof.
 Qed.
 
 Section CarryRepair.
+  Context {LIM : Limit}.
   Variable FNMAX CACHE : N.
   Hypothesis HFN : FNMAX < 2 ^ 64.
   Hypothesis HCACHE : 0 < CACHE.
@@ -54,6 +56,17 @@ Section CarryRepair.
     rewrite HA, Hr in Hs. exact Hs.
   Qed.
 
+  (* SerializationError (EDeser: the footer of the repaired archive exceeds
+     BINCODE_MAX_DESERIALIZE or the u32 length field; returned by finalize AFTER the end marker is
+     written): when the translated function does not return it, neither does the model *)
+  Lemma repair_ser_of_conv S fuel s0 : RdBounded S ->
+    snd (g_conv S fuel s0 aw_init) <> Err EDeser -> repair S fuel s0 w_init <> Err EDeser.
+  Proof.
+    intros HB Hne Hr. destruct RInv_init as (HI & HA). fold aw_init in HI, HA.
+    pose proof (convert_to_archive_sim FNMAX CACHE T_START T_CONTENT T_EOA T_EOF H S HCACHE HB fuel s0 aw_init HI) as Hs.
+    rewrite HA, Hr in Hs. destruct Hs as (l & Eg). apply Hne. rewrite Eg. reflexivity.
+  Qed.
+
   Section OneRun.
     Variable S : Stream.
     Hypothesis HB : RdBounded S.
@@ -69,6 +82,9 @@ Section CarryRepair.
     Hypothesis Hs0 : R s0 0.
     Variable fuel : nat.
     Hypothesis Hfuel : (N.to_nat (len w) < fuel)%nat.
+    (* the translated function did not fail with SerializationError (footer within the bincode limit) *)
+    Hypothesis Hser : snd (g_conv S fuel s0 aw_init) <> Err EDeser.
+    Let Hser_m : repair S fuel s0 w_init <> Err EDeser := repair_ser_of_conv S fuel s0 HB Hser.
 
     (* C02, exact: status, unfinished names and recovered records are those of the pure `cutb` *)
     Theorem repair_exact_src :
@@ -79,7 +95,7 @@ Section CarryRepair.
         RInv (Src3r.l_output S l) /\
         good_output (absW (Src3r.l_output S l)) obl /\ Forall2 same (recovered bl (len w)) (files_of obl).
     Proof.
-      destruct (repair_exact FNMAX CACHE HFN HCACHE _ _ _ _ Htags H H_len S w R HR bl trailer Hwf Htr Hpre s0 Hs0 fuel Hfuel)
+      destruct (repair_exact FNMAX CACHE HFN HCACHE _ _ _ _ Htags H H_len S w R HR bl trailer Hwf Htr Hpre s0 Hs0 fuel Hfuel Hser_m)
         as (out & obl & Hr & Hgo & Hsame).
       destruct (conv_of_repair S fuel s0 _ _ _ HB Hr) as (l & e & Hg & Hst & Ho & HI).
       exists l, e, obl. rewrite Ho. auto.
@@ -100,7 +116,7 @@ Section CarryRepair.
            (forall f, In f (files_of bl) -> f_ended f = true)) /\
         (status = FEndOfData \/ status = FEofNextBlock).
     Proof.
-      destruct (repair_sound_any_prefix FNMAX CACHE HFN HCACHE _ _ _ _ Htags H H_len S w R HR bl trailer Hwf Htr Hpre s0 Hs0 fuel Hfuel)
+      destruct (repair_sound_any_prefix FNMAX CACHE HFN HCACHE _ _ _ _ Htags H H_len S w R HR bl trailer Hwf Htr Hpre s0 Hs0 fuel Hfuel Hser_m)
         as (status & unf & out & obl & Hr & Hrest).
       destruct (conv_of_repair S fuel s0 _ _ _ HB Hr) as (l & e & Hg & Hst & Ho & HI).
       exists l, e, status, unf, obl. rewrite Ho. auto.
@@ -114,7 +130,7 @@ Section CarryRepair.
         (forall f, In f (files_of bl) ->
            content_of (files_of obl) (f_name f) = present (f_id f) bl (len w)).
     Proof.
-      destruct (repair_max_any_prefix FNMAX CACHE HFN HCACHE _ _ _ _ Htags H H_len S w R HR bl trailer Hwf Htr Hpre s0 Hs0 fuel Hfuel)
+      destruct (repair_max_any_prefix FNMAX CACHE HFN HCACHE _ _ _ _ Htags H H_len S w R HR bl trailer Hwf Htr Hpre s0 Hs0 fuel Hfuel Hser_m)
         as (status & unf & out & obl & Hr & Hrest).
       destruct (conv_of_repair S fuel s0 _ _ _ HB Hr) as (l & e & Hg & Hst & Ho & HI).
       exists l, e, obl. rewrite Ho. auto.
@@ -132,6 +148,7 @@ Section CarryRepair.
        function returns Ok — never Err, never a panic *)
     Theorem repair_cut_sound_src n S R s0 fuel :
       RdBounded S -> Refines S (takeN n stream) R -> R s0 0 -> (N.to_nat n < fuel)%nat ->
+      snd (g_conv S fuel s0 aw_init) <> Err EDeser ->
       exists l e status unfinished obl,
         g_conv S fuel s0 aw_init = (l, Ok e) /\ status_of e = (status, unfinished) /\
         good_output (absW (Src3r.l_output S l)) obl /\
@@ -145,14 +162,15 @@ Section CarryRepair.
            (forall f, In f (files_of bl) -> f_ended f = true)) /\
         (status = FEndOfData \/ status = FEofNextBlock).
     Proof.
-      intros HB HR Hs0 Hfuel.
-      apply (repair_sound_any_prefix_src S HB (takeN n stream) R HR bl trailer Hwf Htr (prefix_takeN _ _) s0 Hs0).
-      rewrite len_takeN. lia.
+      intros HB HR Hs0 Hfuel Hser.
+      apply (repair_sound_any_prefix_src S HB (takeN n stream) R HR bl trailer Hwf Htr (prefix_takeN _ _) s0 Hs0);
+        [rewrite len_takeN; lia | exact Hser].
     Qed.
 
     (* the status / unfinished list / records of the pure spec `cutb` at every cut *)
     Theorem repair_cut_exact_src n S R s0 fuel :
       RdBounded S -> Refines S (takeN n stream) R -> R s0 0 -> (N.to_nat n < fuel)%nat ->
+      snd (g_conv S fuel s0 aw_init) <> Err EDeser ->
       exists l e obl,
         g_conv S fuel s0 aw_init = (l, Ok e) /\
         status_of e = (if snd (cutb bl (N.min n (len stream))) then FEndOfData else FEofNextBlock,
@@ -161,9 +179,9 @@ Section CarryRepair.
         good_output (absW (Src3r.l_output S l)) obl /\
         Forall2 same (recovered bl (N.min n (len stream))) (files_of obl).
     Proof.
-      intros HB HR Hs0 Hfuel. rewrite <- len_takeN.
-      apply (repair_exact_src S HB (takeN n stream) R HR bl trailer Hwf Htr (prefix_takeN _ _) s0 Hs0).
-      rewrite len_takeN. lia.
+      intros HB HR Hs0 Hfuel Hser. rewrite <- len_takeN.
+      apply (repair_exact_src S HB (takeN n stream) R HR bl trailer Hwf Htr (prefix_takeN _ _) s0 Hs0);
+        [rewrite len_takeN; lia | exact Hser].
     Qed.
 
     (* C05: the whole archive: the returned value reads as EndOfOriginalArchiveData with nothing
@@ -171,13 +189,15 @@ Section CarryRepair.
        one), every file complete *)
     Theorem repair_intact_complete_src S R s0 fuel :
       RdBounded S -> In BEnd bl -> Refines S stream R -> R s0 0 -> (N.to_nat (len stream) < fuel)%nat ->
+      snd (g_conv S fuel s0 aw_init) <> Err EDeser ->
       exists l e obl,
         g_conv S fuel s0 aw_init = (l, Ok e) /\ status_of e = (FEndOfData, []) /\
         good_output (absW (Src3r.l_output S l)) obl /\ Forall2 same (files_of bl) (files_of obl) /\
         (forall f, In f (files_of bl) -> f_ended f = true).
     Proof.
-      intros HB Hend HR Hs0 Hfuel.
-      destruct (repair_intact_complete FNMAX CACHE HFN HCACHE _ _ _ _ Htags H H_len bl trailer Hwf Htr S R s0 fuel Hend HR Hs0 Hfuel)
+      intros HB Hend HR Hs0 Hfuel Hser.
+      destruct (repair_intact_complete FNMAX CACHE HFN HCACHE _ _ _ _ Htags H H_len bl trailer Hwf Htr S R s0 fuel Hend HR Hs0 Hfuel
+                  (repair_ser_of_conv S fuel s0 HB Hser))
         as (out & obl & Hr & Hgo & Hsame & Hall).
       destruct (conv_of_repair S fuel s0 _ _ _ HB Hr) as (l & e & Hg & Hst & Ho & HI).
       exists l, e, obl. rewrite Ho. auto.
@@ -186,15 +206,16 @@ Section CarryRepair.
     (* C05: nothing present before the cut is lost *)
     Theorem repair_max_src n S R s0 fuel :
       RdBounded S -> Refines S (takeN n stream) R -> R s0 0 -> (N.to_nat n < fuel)%nat ->
+      snd (g_conv S fuel s0 aw_init) <> Err EDeser ->
       exists l e obl,
         g_conv S fuel s0 aw_init = (l, Ok e) /\
         good_output (absW (Src3r.l_output S l)) obl /\
         (forall f, In f (files_of bl) ->
            content_of (files_of obl) (f_name f) = present (f_id f) bl (N.min n (len stream))).
     Proof.
-      intros HB HR Hs0 Hfuel. rewrite <- len_takeN.
-      apply (repair_max_any_prefix_src S HB (takeN n stream) R HR bl trailer Hwf Htr (prefix_takeN _ _) s0 Hs0).
-      rewrite len_takeN. lia.
+      intros HB HR Hs0 Hfuel Hser. rewrite <- len_takeN.
+      apply (repair_max_any_prefix_src S HB (takeN n stream) R HR bl trailer Hwf Htr (prefix_takeN _ _) s0 Hs0);
+        [rewrite len_takeN; lia | exact Hser].
     Qed.
 
     (* ---------- the two concrete source families: RdBounded discharged ---------- *)
@@ -213,28 +234,31 @@ Section CarryRepair.
         (status = FEndOfData \/ status = FEofNextBlock).
 
     Theorem repair_cut_sound_cursor_src n fuel : (N.to_nat n < fuel)%nat ->
+      snd (g_conv (Cursor (takeN n stream)) fuel 0 aw_init) <> Err EDeser ->
       CutConclusion (Cursor (takeN n stream)) fuel 0.
     Proof.
-      intros Hfuel. apply (repair_cut_sound_src n (Cursor (takeN n stream)) _ 0 fuel (RdBounded_cursor _) (cursor_refines _));
-        [split; [reflexivity | apply N.le_0_l] | exact Hfuel].
+      intros Hfuel Hser. apply (repair_cut_sound_src n (Cursor (takeN n stream)) _ 0 fuel (RdBounded_cursor _) (cursor_refines _));
+        [split; [reflexivity | apply N.le_0_l] | exact Hfuel | exact Hser].
     Qed.
     (* a source delivering short reads after ANY schedule *)
     Theorem repair_cut_sound_throttled_src n sched fuel : (N.to_nat n < fuel)%nat ->
+      snd (g_conv (Throttled (takeN n stream)) fuel (0, sched) aw_init) <> Err EDeser ->
       CutConclusion (Throttled (takeN n stream)) fuel (0, sched).
     Proof.
-      intros Hfuel. apply (repair_cut_sound_src n (Throttled (takeN n stream)) _ (0, sched) fuel (RdBounded_throttled _) (throttled_refines _));
-        [split; [reflexivity | apply N.le_0_l] | exact Hfuel].
+      intros Hfuel Hser. apply (repair_cut_sound_src n (Throttled (takeN n stream)) _ (0, sched) fuel (RdBounded_throttled _) (throttled_refines _));
+        [split; [reflexivity | apply N.le_0_l] | exact Hfuel | exact Hser].
     Qed.
     Theorem repair_intact_complete_throttled_src sched fuel :
       In BEnd bl -> (N.to_nat (len stream) < fuel)%nat ->
+      snd (g_conv (Throttled stream) fuel (0, sched) aw_init) <> Err EDeser ->
       exists l e obl,
         g_conv (Throttled stream) fuel (0, sched) aw_init = (l, Ok e) /\ status_of e = (FEndOfData, []) /\
         good_output (absW (Src3r.l_output _ l)) obl /\ Forall2 same (files_of bl) (files_of obl) /\
         (forall f, In f (files_of bl) -> f_ended f = true).
     Proof.
-      intros Hend Hfuel.
+      intros Hend Hfuel Hser.
       apply (repair_intact_complete_src (Throttled stream) _ (0, sched) fuel (RdBounded_throttled _) Hend (throttled_refines _));
-        [split; [reflexivity | apply N.le_0_l] | exact Hfuel].
+        [split; [reflexivity | apply N.le_0_l] | exact Hfuel | exact Hser].
     Qed.
   End Cuts.
 End CarryRepair.
